@@ -595,6 +595,11 @@ class Body:
                     if nm in ITER_METHODS and root is not None and self.is_aliasish(root):
                         self._check_iter(i, nm, root)
                     continue
+                if nm == 'CopyTo':
+                    # x->CopyTo(dest) const: reads x, appends to dest - fine iff dest is not (derived from) pre-existing state
+                    if self._mentions_alias(args):
+                        P.append('%s.CopyTo(%s): copies into pre-existing state' % (root, ' '.join(args)[:40]))
+                    continue
                 if (root, nm) in TRUSTED_MEMBER_CALLS:
                     continue
                 P.append('%s.%s(): method not known to be non-modifying' % (root if root else '<expr>', nm))
@@ -899,6 +904,7 @@ _ACCEPT = [
      ' for (const Dictionary::Pair& kv : dict) { result.push_back(kv.first); } } return new Array(std::move(result));'),
     ('', 'ScriptFrame *vframe = ScriptFrame::GetCurrentFrame(); Array::Ptr self = static_cast<Array::Ptr>(vframe->Self); REQUIRE_NOT_NULL(self);'
      ' return self->Reverse();'),
+    ('const Array::Ptr& a', 'Array::Ptr c = new Array(); a->CopyTo(c); ObjectLock olock(c); std::sort(c->Begin(), c->End()); return c;'),
 ]
 _REJECT = [
     ('const std::vector<Value>& arguments', 'Array::Ptr arr1 = arguments[0]; ObjectLock olock(arr1); std::sort(arr1->Begin(), arr1->End()); return arr1;'),
@@ -943,3 +949,80 @@ def selftest(log=None):
 if __name__ == '__main__':
     l = []
     print(selftest(l), '\n'.join(l))
+
+
+# ---------------------------------------------------------------- reflective READ capability of natives (C19 item "hidden reads")
+ACCESSORS = ('GetFieldByName', 'GetField', 'GetOwnField', 'NavigateField', 'Serialize', 'GetFieldInfo')
+_SKIP_NAMES = set(ACCESSORS) | {'if', 'for', 'while', 'switch', 'return', 'sizeof', 'catch', 'BOOST_THROW_EXCEPTION', 'ObjectLock',
+                                'REQUIRE_NOT_NULL', 'static_cast', 'dynamic_pointer_cast', 'static_pointer_cast', 'dynamic_cast',
+                                'ASSERT', 'VERIFY', 'String', 'Value', 'Array', 'Dictionary', 'Log', 'push_back', 'insert', 'size',
+                                'begin', 'end', 'Begin', 'End', 'empty', 'find', 'what', 'c_str', 'CStr', 'GetData', 'str'}
+
+
+def all_function_bodies(texts):
+    """every definition `[Class::]name(params) [const] {` in the given sources -> {simple name: [(qualified name, params, body)]}"""
+    out = {}
+    rx = re.compile(r'(?m)^[ \t]*(?:static\s+|inline\s+|template\s*<[^>]*>\s*)*[\w:<>\*&,\s]+?[\s\*&]((?:\w+::)*~?\w+)\s*\(')
+    for rel, t in texts.items():
+        for m in rx.finditer(t):
+            q = m.group(1)
+            if q.split('::')[-1] in ('if', 'for', 'while', 'switch', 'return', 'catch', 'else', 'sizeof', 'defined'):
+                continue
+            ds = find_defs(t[m.start():m.start() + 20000], q)
+            if not ds:
+                continue
+            params, body, _c = ds[0]
+            if t[m.start():].find(q) > 200:
+                continue
+            out.setdefault(q.split('::')[-1], []).append((q, params, body))
+    # de-duplicate
+    for k in out:
+        seen, l = set(), []
+        for q, p, b in out[k]:
+            if (q, b) not in seen:
+                seen.add((q, b))
+                l.append((q, p, b))
+        out[k] = l
+    return out
+
+
+def reflect_reach(name, params, body, bodies, depth=3):
+    """reflective accessor calls reachable from this body through name-resolved callees -> sorted list of (where, accessor, how)"""
+    found, seen = set(), set()
+
+    def visit(q, b, d):
+        toks = tokenize(strip_pp(b))
+        for i, x in enumerate(toks):
+            if i + 1 >= len(toks) or toks[i + 1] != '(' or not is_ident(x):
+                continue
+            if x in ACCESSORS:
+                close = match_close(toks, i + 1)
+                args, cur, dd = [], [], 0
+                for y in toks[i + 2:close]:
+                    if y in ('(', '[', '{'):
+                        dd += 1
+                    elif y in (')', ']', '}'):
+                        dd -= 1
+                    if y == ',' and dd == 0:
+                        args.append(''.join(cur))
+                        cur = []
+                    else:
+                        cur.append(y)
+                if cur:
+                    args.append(''.join(cur))
+                how = x
+                if x == 'GetFieldByName':
+                    how = 'GetFieldByName:' + (args[1] if len(args) > 1 else '?')
+                found.add((q, x, how))
+                continue
+            if d <= 0 or x in _SKIP_NAMES:
+                continue
+            for (q2, p2, b2) in bodies.get(x, []):
+                if q2.split('::')[-1] in ACCESSORS:
+                    continue
+                if (q2, len(b2)) in seen:
+                    continue
+                seen.add((q2, len(b2)))
+                visit(q2, b2, d - 1)
+    visit(name, body, depth)
+    return sorted(found)
